@@ -359,7 +359,7 @@ def oracle_raw(R):
         first = re.sub(r"^.*?error: ", "", R.detail.split("\n")[0])
         if R.schema.name.lower() in CXX_KEYWORDS:
             sig = "expected_(_before_::_token"              # finding F2: schema name used verbatim as a namespace
-        elif re.search(r"Sdai\w+_var(_agg)?\W+does not name a type|no declaration matches .const Sdai\w+_var(_agg)?\W", R.detail):
+        elif re.search(r"Sdai\w+_var\w*\W+does not name a type|no declaration matches .const Sdai\w+_var\w*\W", R.detail):
             sig = "enum-class-used-before-its-typedef"        # names vary with the schema: classify
         elif re.search(r"type/Sdai\w+\.cc:.*has no member named .\w+_\W", R.detail.split("\n")[0]):
             sig = "select-calls-missing-accessor"          # names vary with the schema: classify
